@@ -711,6 +711,182 @@ class LaneScoreboard:
 
 
 # ---------------------------------------------------------------------------------------------------------
+# End-to-end byte oracle across a real converter (address channel + data channel together; model independent)
+
+
+class ConvE2E:
+    """Drives whole write and read bursts from the supported region through a real AXIUp/DownConverter with random
+    stalls and compares, byte by byte, what the master issued with what appears on the other side:
+    write: the ordered list of (byte address, value) with strobe set; read: the value the master receives for every
+    byte address against the value the slave returned for it; plus beat counts and `last` on the final beat.
+    Byte addresses of the beats follow the A3.4.1 oracle on both sides."""
+
+    def __init__(self, kind, dw_from, dw_to, aw=32):
+        self.p = LanePathInst("e2e", kind, "w", dw_from, dw_to, aw=aw)
+        self.kind, self.dw_from, self.dw_to, self.aw = kind, dw_from, dw_to, aw
+        self.name = "AXI%sConverter(%d->%d)/end-to-end" % ("Up" if kind == "up" else "Down", dw_from, dw_to)
+        self.ca_sf = log2i(dw_from // 8)
+        self.ca_st = log2i(dw_to // 8)
+        self.n = self.p.netlist
+        self.root = self.n.snapshot()
+
+    def supported_request(self, rng):
+        class _C:
+            pass
+        c = _C()
+        c.kind, c.sf, c.st, c.aw = self.kind, self.ca_sf, self.ca_st, self.aw
+        while True:
+            for r in conv_supported_requests(rng, c, 1):
+                a, ln, size, bt = r
+                if self.kind == "down":
+                    a = (a >> self.ca_sf) << self.ca_sf
+                if ln < 48:
+                    return (a, ln, size, bt)
+
+    @staticmethod
+    def bytes_of_beats(req, beats, dw, with_strb):
+        """[(byte address, value)] for the beats of a burst on a dw-bit bus (lane = address mod bus bytes)."""
+        a, ln, size, bt = req
+        nbus = dw // 8
+        out = []
+        for k, (data, strb) in enumerate(beats):
+            for b in beat_bytes(a, ln, size, bt, k) if k <= ln else []:
+                lane = b % nbus
+                if (not with_strb) or (strb >> lane) & 1:
+                    out.append((b, (data >> (8 * lane)) & 0xff))
+        return out
+
+    def run_write(self, req, wbeats, seed):
+        import random
+        rng = random.Random(seed)
+        n, f, t = self.n, self.p.axi_from, self.p.axi_to
+        n.restore(self.root)
+        a, ln, size, bt = req
+        aw_sent = False
+        i = 0
+        got_aw = None
+        got_w = []
+        idle = 0
+        for cyc in range(40 * (len(wbeats) + 4) * max(1, self.dw_from // self.dw_to)):
+            wv = int(i < len(wbeats) and rng.random() < 0.8)
+            n.set(f.aw.valid, int(not aw_sent)); n.set(f.aw.addr, a); n.set(f.aw.len, ln); n.set(f.aw.size, size)
+            n.set(f.aw.burst, bt)
+            n.set(f.w.valid, wv)
+            if i < len(wbeats):
+                n.set(f.w.data, wbeats[i][0]); n.set(f.w.strb, wbeats[i][1]); n.set(f.w.last, int(i == len(wbeats) - 1))
+            n.set(t.aw.ready, int(rng.random() < 0.6)); n.set(t.w.ready, int(rng.random() < 0.6))
+            n.settle()
+            if n.getu(t.aw.valid) and n.getu(t.aw.ready) and got_aw is None:
+                got_aw = (n.getu(t.aw.addr), n.getu(t.aw.len), n.getu(t.aw.size), n.getu(t.aw.burst))
+            if (not aw_sent) and n.getu(f.aw.ready):
+                aw_sent = True
+            if n.getu(t.w.valid) and n.getu(t.w.ready):
+                got_w.append((n.getu(t.w.data), n.getu(t.w.strb), n.getu(t.w.last)))
+            if wv and n.getu(f.w.ready):
+                i += 1
+            n.tick()
+            if aw_sent and i >= len(wbeats):
+                idle += 1
+                if idle > 12:
+                    break
+        if got_aw is None:
+            return "write burst %r: AW never forwarded" % (req,)
+        want = self.bytes_of_beats(req, wbeats, self.dw_from, True)
+        if len(got_w) != got_aw[1] + 1:
+            return "write burst %r forwarded as AW%r with %d W beats" % (req, got_aw, len(got_w))
+        if [l for (_, _, l) in got_w] != [0] * (len(got_w) - 1) + [1]:
+            return "write burst %r: W last flags %r" % (req, [l for (_, _, l) in got_w])
+        have = self.bytes_of_beats(got_aw, [(d, s) for (d, s, _) in got_w], self.dw_to, True)
+        if have != want:
+            k = next((j for j in range(min(len(have), len(want))) if have[j] != want[j]), min(len(have), len(want)))
+            return "write burst %r forwarded as AW%r: byte stream differs at position %d (%r vs %r; %d vs %d bytes)" % (
+                req, got_aw, k, have[k] if k < len(have) else None, want[k] if k < len(want) else None, len(have), len(want))
+        return None
+
+    def run_read(self, req, seed):
+        import random
+        rng = random.Random(seed)
+        n, f, t = self.n, self.p.axi_from, self.p.axi_to
+        n.restore(self.root)
+        a, ln, size, bt = req
+        ar_sent = False
+        got_ar = None
+        sl_beats = []      # beats the slave returns on the to-side
+        ms_beats = []      # beats the master receives
+        sl_next = None
+        idle = 0
+        for cyc in range(60 * (ln + 4) * max(1, self.dw_from // self.dw_to)):
+            n.set(f.ar.valid, int(not ar_sent)); n.set(f.ar.addr, a); n.set(f.ar.len, ln); n.set(f.ar.size, size)
+            n.set(f.ar.burst, bt)
+            n.set(t.ar.ready, int(rng.random() < 0.6))
+            rv = int(got_ar is not None and len(sl_beats) <= got_ar[1] and rng.random() < 0.7)
+            if rv and sl_next is None:
+                sl_next = rng.getrandbits(self.dw_to)
+            n.set(t.r.valid, rv)
+            if rv:
+                n.set(t.r.data, sl_next); n.set(t.r.last, int(len(sl_beats) == got_ar[1]))
+            n.set(f.r.ready, int(rng.random() < 0.6))
+            n.settle()
+            if n.getu(t.ar.valid) and n.getu(t.ar.ready) and got_ar is None:
+                got_ar = (n.getu(t.ar.addr), n.getu(t.ar.len), n.getu(t.ar.size), n.getu(t.ar.burst))
+            if (not ar_sent) and n.getu(f.ar.ready):
+                ar_sent = True
+            if rv and n.getu(t.r.ready):
+                sl_beats.append((sl_next, 0))
+                sl_next = None
+            if n.getu(f.r.valid) and n.getu(f.r.ready):
+                ms_beats.append((n.getu(f.r.data), n.getu(f.r.last)))
+            n.tick()
+            if got_ar is not None and len(sl_beats) > got_ar[1]:
+                idle += 1
+                if idle > 12:
+                    break
+        if got_ar is None:
+            return "read burst %r: AR never forwarded" % (req,)
+        if len(ms_beats) != ln + 1:
+            return "read burst %r forwarded as AR%r: master received %d beats" % (req, got_ar, len(ms_beats))
+        if [l for (_, l) in ms_beats] != [0] * ln + [1]:
+            return "read burst %r: R last flags %r" % (req, [l for (_, l) in ms_beats])
+        want = dict(self.bytes_of_beats(got_ar, sl_beats, self.dw_to, False))
+        have = self.bytes_of_beats(req, [(d, 0) for (d, _) in ms_beats], self.dw_from, False)
+        for (b, v) in have:
+            if want.get(b) != v:
+                return "read burst %r forwarded as AR%r: byte 0x%x read as 0x%02x, slave returned %s" % (
+                    req, got_ar, b, v, "0x%02x" % want[b] if b in want else "nothing for it")
+        return None
+
+    def run(self, cov, seed, tier):
+        import random
+        rng = random.Random(seed * 977 + self.dw_from + 3 * self.dw_to)
+        nb = 12 if tier == "quick" else 120
+        dis = []
+        beats = 0
+        for k in range(nb):
+            req = self.supported_request(rng)
+            wbeats = [(rng.getrandbits(self.dw_from), rng.choice((rng.getrandbits(self.dw_from // 8),
+                                                                  (1 << (self.dw_from // 8)) - 1)))
+                      for _ in range(req[1] + 1)]
+            s1 = rng.getrandbits(30)
+            m = self.run_write(req, wbeats, s1)
+            if m:
+                dis.append({"instance": self.name, "kind": "monitor:" + m, "e2e": "write", "request": list(req),
+                            "wbeats": [list(b) for b in wbeats], "stall_seed": s1, "monitor": m})
+                break
+            s2 = rng.getrandbits(30)
+            m = self.run_read(req, s2)
+            if m:
+                dis.append({"instance": self.name, "kind": "monitor:" + m, "e2e": "read", "request": list(req),
+                            "stall_seed": s2, "monitor": m})
+                break
+            beats += 2 * (req[1] + 1)
+        cov.add_cases(self.name, 2 * nb, 2 * nb, exhaustive=False)
+        cov.instances[-1]["mode"] = "E (monitor only)"
+        cov.count("end-to-end bursts (write+read)", 2 * nb)
+        cov.count("end-to-end beats", beats)
+        return dis
+
+
+# ---------------------------------------------------------------------------------------------------------
 # Parallel job runner with the extra job kinds of this property
 
 
@@ -742,6 +918,8 @@ def _worker(idx):
             dis = coexplore_dyn(inst, lean, cov, **job.kw)
         elif job.mode == "C":
             return idx, cov.__dict__, conv_run(inst, lean, cov, seed, tier)
+        elif job.mode == "E":
+            return idx, cov.__dict__, inst.run(cov, seed, tier)
         else:
             rng = random.Random(seed * 7919 + idx)
             dis = cosim(inst, lean, cov, rng, **job.kw)
